@@ -564,7 +564,9 @@ func (in *Interp) stepGuarded(th *Thread) {
 	defer func() {
 		if r := recover(); r != nil {
 			if up, ok := r.(*uncaughtPanic); ok {
+				in.pendingTrace = up.ps.trace
 				in.violation("panic", "uncaught panic: "+in.panicText(up.ps), up.ps.site, nil)
+				in.pendingTrace = nil
 				panic(abortf("STOP", "uncaught panic"))
 			}
 			panic(r)
